@@ -99,7 +99,7 @@ def rnd_time(r, form):
 
 
 FOOTER_FORMS = ["M", "J", "N", "mixed", "neg-time", "big-time", "edge-time", "south", "neg-save", "allyear",
-                "std-only", "empty", "sec-offsets", "M", "mixed", "v1", "year-edge", "year-edge", "year-edge", "near-allyear"]
+                "std-only", "empty", "sec-offsets", "M", "mixed", "v1", "year-edge", "year-edge", "year-edge", "near-allyear", "max-straddle", "many-types", "both-cross"]
 
 
 def footer_ok(p, min_sep=20 * SPD):
@@ -144,6 +144,21 @@ def gen_footer(r, form, used):
         if form == "allyear":
             x = 86400 + save
             footer += ",0/0,J365/" + fmt_hms(x)
+        elif form == "max-straddle":
+            # a rule transition within minutes of Dec 4 15:30:07 UTC, the residue of time_point::max() in the 400-year cycle
+            want_utc = 15 * 3600 + 30 * 60 + 7 + r.choice([0, -1807, 1200, -600, 2707, 1, -1])
+            if r.random() < 0.5:   # the start of DST (read in standard time) sits there
+                tloc = want_utc + so
+                footer += ",J338/" + fmt_hms(tloc) + "," + r.choice(["J60/0", "M3.2.0", "100/3"])
+            else:                  # the end of DST (read in daylight time) sits there
+                tloc = want_utc + do
+                footer += "," + r.choice(["J60/0", "M3.2.0", "100/3"]) + ",J338/" + fmt_hms(tloc)
+        elif form == "both-cross":
+            # both rule transitions are dated early January with negative times: both land in the previous calendar year
+            # (DST lasts only a day or two: the changes are still farther apart than the sum of their sizes)
+            t1 = -r.randrange(60, 120) * 3600
+            gap = r.randrange(24, 60) * 3600
+            footer += ",J1/" + fmt_hms(t1) + ",J1/" + fmt_hms(t1 + gap + save)
         elif form == "near-allyear":
             # almost permanent DST: like zic's "0/0,J365/25" but with a short standard-time window at the year end
             if save <= 0:
@@ -182,6 +197,9 @@ def gen_footer(r, form, used):
         elif form == "near-allyear":
             if p.allyear() or not footer_ok(p, min_sep=2 * save):
                 continue
+        elif form == "both-cross":
+            if save <= 0 or p.allyear() or not footer_ok(p, min_sep=SPD):
+                continue
         else:
             if p.allyear() or not footer_ok(p):
                 continue
@@ -202,7 +220,9 @@ def gen_S(seed, klass="S"):
     footer, std, dst = (None, None, None)
     if form == "v1":
         version = b"\0"
-    if form in ("empty", "v1"):
+    if form == "many-types":
+        footer, std, dst = gen_footer(r, "M", used)
+    elif form in ("empty", "v1"):
         so = r.randrange(-14 * 4, 14 * 4 + 1) * 900
         _, sraw = rnd_abbr(r, used)
         std = (so, sraw)
@@ -211,6 +231,9 @@ def gen_S(seed, klass="S"):
         footer, std, dst = gen_footer(r, form, used)
     p = M.Posix(footer) if footer else None
     rules = bool(p and p.dst and not p.allyear())
+    # many-types, abbreviation route: the footer's daylight abbreviation is absent from a designation table that is
+    # (nearly) full, so the library has to append it at the last index an 8-bit abbreviation index can hold
+    abbr_route = form == "many-types" and rules and seed // len(FOOTER_FORMS) % 2 == 1
     types = []
     abbrs = b""
     amap = {}
@@ -227,7 +250,7 @@ def gen_S(seed, klass="S"):
 
     lmt = addtype(r.randrange(-50000, 50000), 0, "LMT")
     si = addtype(std[0], 0, std[1])
-    di = addtype(dst[0], 1, dst[1]) if dst else None
+    di = addtype(dst[0], 1, dst[1]) if dst and not abbr_route else None
     extra = []
     for _ in range(r.randrange(0, 4)):
         _, raw = rnd_abbr(r, used)
@@ -237,6 +260,22 @@ def gen_S(seed, klass="S"):
         _, raw = rnd_abbr(r, used)
         extra.append(addtype(std[0], 0, raw))
         extra.append(addtype(std[0], 1, std[1]) if (std[0], 1, amap[std[1]]) not in types else si)
+    if abbr_route:
+        want = r.choice([255, 255, 255, 254, 250])
+        k = 0
+        while want - len(abbrs) >= 9:
+            k += 1
+            extra.append(addtype(-40000 + 911 * k, k & 1, chr(65 + k // 26) + chr(65 + k % 26) + "ZQ"))
+        if want - len(abbrs) >= 4:
+            extra.append(addtype(-40000 + 911 * (k + 1), 0, "Q" * (want - len(abbrs) - 1)))
+    elif form == "many-types":
+        # fill the type table to just below / at its 8-bit limit (256 types, counting one the library may have to create); the footer's daylight type may be absent from it
+        target = r.choice([255, 256, 257, 257, 257])
+        k = 0
+        while len(types) < target - 1 and k < 4000:
+            k += 1
+            extra.append(addtype(-43200 + 337 * k, k & 1, r.choice(["LMT", std[1]])))
+        extra = list(dict.fromkeys(extra))
     if klass == "S":
         Y0 = r.choice([r.randrange(1850, 2200), r.randrange(1800, 3000), 2037, 2007, r.randrange(1970, 2040)])
     elif klass == "S-early":
@@ -248,17 +287,25 @@ def gen_S(seed, klass="S"):
         a = (p.start_of(Y0), di)
         b = (p.end_of(Y0), si)
         tl = r.choice([a, b])
-        if r.random() < 0.25:
+        if abbr_route or (form == "many-types" and r.random() < 0.6):
+            tl = b
+        elif r.random() < 0.25:
             # the body ends at an arbitrary instant (a zone-line change in zic terms), with the type the footer assigns there
             t_end = j + r.choice([r.randrange(0, 365 * SPD), r.randrange(0, 3 * SPD), r.randrange(360 * SPD, 366 * SPD), 0])
             tl = (t_end, di if p.lookup(t_end)[1] else si)
-        pool = [lmt, si, di] + extra
+        pool = [x for x in [lmt, si, di] + extra if x is not None]
     elif p and p.dst:  # all-year DST: the last transition enters permanent DST
         tl = (j + r.randrange(0, 365 * SPD), di)
         pool = [lmt, si, di] + extra
     else:
         tl = (j + r.randrange(0, 365 * SPD), si)
         pool = [lmt, si] + extra
+    omit = None
+    if rules and not abbr_route and (form in ("many-types", "both-cross") or r.random() < 0.2):
+        # one of the footer's two types does not occur in the body (zic -b slim does that to the daylight type when the
+        # table stops before the first daylight period); the library has to create it from the footer
+        omit = di if tl[1] == si else si
+        pool = [x for x in pool if x != omit]
     n = r.choice([0, 1, 2, r.randrange(0, 12), r.randrange(0, 40)])
     times = []
     t = tl[0]
@@ -275,15 +322,28 @@ def gen_S(seed, klass="S"):
     trans.append(tl)
     if r.random() < 0.15:
         trans = [(-2 ** 59, lmt)] + [x for x in trans if x[0] > -2 ** 59 + 3 * SPD]
+    if omit is not None and all(ty != omit for _, ty in trans):
+        types.pop(omit)
+        trans = [(t, ty - 1 if ty > omit else ty) for t, ty in trans]
+        lmt = lmt - 1 if lmt > omit else lmt
+    else:
+        omit = None
     if version == b"\0":
         # v1-only: 32-bit data, no footer; keep only what fits and make the last entry standard time
         trans = [x for x in trans if -2 ** 31 <= x[0] < 2 ** 31]
+        if trans and r.random() < 0.6:
+            # what zic -b fat appends: a no-op entry at the very end of the 32-bit range (and sometimes at its start)
+            trans = [x for x in trans if x[0] < 2 ** 31 - 1 - 3 * SPD] + [(2 ** 31 - 1, trans[-1][1])]
+            if r.random() < 0.3 and trans[0][0] > -2 ** 31 + 3 * SPD:
+                trans = [(-2 ** 31, lmt)] + trans
     isstd = isut = None
     if r.random() < 0.3:
         isstd = [r.randrange(0, 2) for _ in types]
         isut = [r.randrange(0, 2) if s else 0 for s in isstd]
     data = tzif_bytes(trans, types, abbrs, footer, version=version, v1=r.choice(["slim", "fat"]), isstd=isstd, isut=isut)
-    return data, dict(form=form, footer=footer, last_year=Y0, ntrans=len(trans), version=version.decode("latin1"))
+    return data, dict(form=form, footer=footer, last_year=Y0, ntrans=len(trans), version=version.decode("latin1"),
+                      ntypes=len(types), nchars=len(abbrs), abbr_route=abbr_route,
+                      omitted=None if omit is None else ("dst" if omit == di else "std"))
 
 
 # ---------------------------------------------------------------------- zic (Z)
@@ -416,11 +476,16 @@ def domain_ok(path):
         p = z.posix
         if not p.ok:
             return False
+        seam_min = 3 * SPD
         if p.dst and not p.allyear() and not footer_ok(p):
             # the near-all-year class: standard time only in a short window at the year end
             near = p.start == (("N", 0), 0) and p.end[0] == ("J", 365) and footer_ok(p, min_sep=2 * abs(p.dst_off - p.std_off))
-            if not near:
+            # a short DST period: both rules on the same date, at least a day apart
+            short = p.start[0] == p.end[0] and footer_ok(p, min_sep=SPD)
+            if not near and not short:
                 return False
+            if short:
+                seam_min = SPD
         if p.dst and not p.allyear() and not z.times:
             return False
         # RFC 9636 consistency: the footer evaluated at the last transition yields that transition's type
@@ -432,7 +497,7 @@ def domain_ok(path):
             last = z.times[-1]
             y = M.civil(last)[0]
             nxt = min(t for yy in (y - 1, y, y + 1, y + 2) for t in (p.start_of(yy), p.end_of(yy)) if t > last)
-            if nxt - last < 3 * SPD:
+            if nxt - last < seam_min:
                 return False
     if z.types[0][1] and 0 in z.idx:
         return False
